@@ -152,6 +152,9 @@ def tag_fn(name):
             return ("mut", before)
 
         return mutate
+    if name == "f_call":
+        # receives a function (an evaluated pipeline / partial application) and calls it
+        return lambda p, x: ("called", p(x))
     if name.startswith("f_const:"):
         import ast
 
